@@ -534,6 +534,10 @@ def check_tree(e, g: Gen, rec, label, origin=None):
 
 
 def plan(tier, seed):
+    return _plan_core(tier, seed) + [{"_label": "suite", "kind": "suite", "tier": tier, "_timeout": 2400}]
+
+
+def _plan_core(tier, seed):
     n = N[tier]
     return [{"_label": f"shard{i}", "seed": seed, "shard": i, "trees": n["trees"] // 16, "depth": n["depth"]} for i in range(16)]
 
@@ -547,6 +551,10 @@ def make_tree(g, r, i, depth, rec=None):
 
 
 def work(spec, rec):
+    if spec.get("kind") == "suite":
+        harness.run_suite("C05", harness.SUITE_QUICK if spec["tier"] == "quick" else harness.SUITE_FULL, rec)
+        rec.case(("suite", spec["tier"]))
+        return
     r = harness.rng_for("C05", spec["seed"], spec["shard"])
     g = Gen(r, rec)
     only = spec.get("only")
